@@ -191,7 +191,21 @@ func (g *G) intBinop(op token.Token, t types.Type, x, y IntV, pos token.Pos) Val
 		r = tb.Arith(OpMul, a, b)
 	case token.QUO, token.REM:
 		if vm.intMode {
-			panic(unsupported("symbolic division in int mode"))
+			// division by a non-zero constant stays linear: q = trunc(a / c), r = a - c*q
+			if !b.IsConst() || int64(b.val) == 0 {
+				panic(unsupported("symbolic division in int mode by a non-constant divisor"))
+			}
+			c := int64(b.val)
+			q := tb.IntQuoConst(a, c)
+			if c < 0 {
+				q = tb.intArith(OpSub, tb.Const(0, SortInt), tb.IntQuoConst(a, -c))
+			}
+			if op == token.QUO {
+				r = q
+			} else {
+				r = tb.intArith(OpSub, a, tb.intArith(OpMul, b, q))
+			}
+			break
 		}
 		nz := tb.BNot(tb.Eq(b, tb.Const(0, w)))
 		if !g.branch(nz, "div-nonzero") {
